@@ -118,7 +118,9 @@ class Ctx:
             e.update(env)
         t0 = time.time()
         for attempt in range(3):
-            cmd = ["tlc", "-workers", str(workers), "-metadir", os.path.join(d, "meta%d" % attempt), "-config", cfg] + list(extra) + [spec]
+            # no checkpoints: a run of more than half an hour would write one, and TLC cannot checkpoint a behaviour of more
+            # than 65535 states (a long trace is one such behaviour)
+            cmd = ["tlc", "-workers", str(workers), "-checkpoint", "0", "-metadir", os.path.join(d, "meta%d" % attempt), "-config", cfg] + list(extra) + [spec]
             try:
                 r = subprocess.run(cmd, cwd=d, env=e, capture_output=True, text=True, timeout=timeout)
             except subprocess.TimeoutExpired:
